@@ -39,6 +39,7 @@ func subselector(r *vh.Rng, n int) map[string]string {
 }
 
 type ctl struct {
+	want map[string][]string // per service: the addresses of all pods / "svc|sub": of the labelled pods, each once, sorted
 	v    *k8s.VerifC09
 	vs   *conf_v1.VirtualServer
 	vsrs []*conf_v1.VirtualServerRoute
@@ -66,43 +67,115 @@ func getCtl(c *Case) *ctl {
 	if k, ok := ctlCache[c.ID]; ok {
 		return k
 	}
-	k := &ctl{v: k8s.NewVerifC09(c.Plus)}
+	k := &ctl{v: k8s.NewVerifC09(c.Plus), want: map[string][]string{}}
 	vs, vsrs := vsObjects(c)
 	ups := append([]conf_v1.Upstream{}, vs.Spec.Upstreams...)
 	for _, r := range vsrs {
 		ups = append(ups, r.Spec.Upstreams...)
 	}
-	ready := true
-	tp := int32(8080)
 	for i, u := range ups {
-		svc := &api_v1.Service{
-			ObjectMeta: meta_v1.ObjectMeta{Name: u.Service, Namespace: vs.Namespace},
-			Spec: api_v1.ServiceSpec{Selector: map[string]string{"app": u.Service},
-				Ports: []api_v1.ServicePort{{Port: int32(u.Port), TargetPort: intstr.FromInt(8080), Protocol: api_v1.ProtocolTCP}}},
-		}
-		_ = k.v.AddService(svc)
-		sl := &discovery_v1.EndpointSlice{
-			ObjectMeta: meta_v1.ObjectMeta{Name: u.Service + "-slice", Namespace: vs.Namespace, Labels: map[string]string{"kubernetes.io/service-name": u.Service}},
-			Ports:      []discovery_v1.EndpointPort{{Port: &tp}},
-		}
-		npods := 2*(c.P["eps"]+1) + 1
-		for j := 0; j < npods; j++ {
-			ip := fmt.Sprintf("10.%d.%d.%d", 20+i, j/200, 1+j%200)
-			pn := fmt.Sprintf("%s-pod-%d", u.Service, j)
-			lbl := map[string]string{"app": u.Service}
-			if j%2 == 0 {
-				for _, lk := range sortedKeys(u.Subselector) {
-					lbl[lk] = u.Subselector[lk]
-				}
-			}
-			_ = k.v.AddPod(&api_v1.Pod{ObjectMeta: meta_v1.ObjectMeta{Name: pn, Namespace: vs.Namespace, Labels: lbl}, Status: api_v1.PodStatus{PodIP: ip}})
-			sl.Endpoints = append(sl.Endpoints, discovery_v1.Endpoint{Addresses: []string{ip}, Conditions: discovery_v1.EndpointConditions{Ready: &ready},
-				TargetRef: &api_v1.ObjectReference{Kind: "Pod", Name: pn, Namespace: vs.Namespace}})
-		}
-		_ = k.v.AddSlice(sl)
+		k.populate(vs.Namespace, u.Service, int32(u.Port), i, u.Subselector, 2*(c.P["eps"]+1)+1)
 	}
 	ctlCache[c.ID] = k
 	return k
+}
+
+// populate: a Service with npods pods behind it.  Every second pod carries the subselector labels.  The
+// endpoint SET is spread over three EndpointSlices the way real clusters do it: the main slice (one
+// endpoint per pod, with targetRef), a mirrored slice that repeats every third address WITHOUT targetRef,
+// and a slice written by another controller that repeats the first address under another pod name.  Two
+// podEndpoints can therefore share an address and differ in the pod they name.
+func (k *ctl) populate(ns, svcName string, port int32, i int, sub map[string]string, npods int) {
+	if _, done := k.want[svcName]; done {
+		return
+	}
+	ready := true
+	tp := int32(8080)
+	_ = k.v.AddService(&api_v1.Service{
+		ObjectMeta: meta_v1.ObjectMeta{Name: svcName, Namespace: ns},
+		Spec: api_v1.ServiceSpec{Selector: map[string]string{"app": svcName},
+			Ports: []api_v1.ServicePort{{Port: port, TargetPort: intstr.FromInt(8080), Protocol: api_v1.ProtocolTCP}}},
+	})
+	mk := func(suffix string) *discovery_v1.EndpointSlice {
+		return &discovery_v1.EndpointSlice{
+			ObjectMeta: meta_v1.ObjectMeta{Name: svcName + suffix, Namespace: ns, Labels: map[string]string{"kubernetes.io/service-name": svcName}},
+			Ports:      []discovery_v1.EndpointPort{{Port: &tp}},
+		}
+	}
+	main, mirror, other := mk("-slice"), mk("-mirror"), mk("-zcustom")
+	var all, labelled []string
+	for j := 0; j < npods; j++ {
+		ip := fmt.Sprintf("10.%d.%d.%d", 20+i, j/200, 1+j%200)
+		pn := fmt.Sprintf("%s-pod-%d", svcName, j)
+		lbl := map[string]string{"app": svcName}
+		if j%2 == 0 {
+			for _, lk := range sortedKeys(sub) {
+				lbl[lk] = sub[lk]
+			}
+			labelled = append(labelled, fmt.Sprintf("%s:8080", ip))
+		}
+		all = append(all, fmt.Sprintf("%s:8080", ip))
+		_ = k.v.AddPod(&api_v1.Pod{ObjectMeta: meta_v1.ObjectMeta{Name: pn, Namespace: ns, Labels: lbl}, Status: api_v1.PodStatus{PodIP: ip}})
+		main.Endpoints = append(main.Endpoints, discovery_v1.Endpoint{Addresses: []string{ip}, Conditions: discovery_v1.EndpointConditions{Ready: &ready},
+			TargetRef: &api_v1.ObjectReference{Kind: "Pod", Name: pn, Namespace: ns}})
+		if j%3 == 0 {
+			mirror.Endpoints = append(mirror.Endpoints, discovery_v1.Endpoint{Addresses: []string{ip}, Conditions: discovery_v1.EndpointConditions{Ready: &ready}})
+		}
+		if j == 0 || j == 2 {
+			other.Endpoints = append(other.Endpoints, discovery_v1.Endpoint{Addresses: []string{ip}, Conditions: discovery_v1.EndpointConditions{Ready: &ready},
+				TargetRef: &api_v1.ObjectReference{Kind: "Pod", Name: pn + "-replaced", Namespace: ns}})
+		}
+	}
+	_ = k.v.AddSlice(main)
+	_ = k.v.AddSlice(mirror)
+	_ = k.v.AddSlice(other)
+	sort.Strings(all)
+	sort.Strings(labelled)
+	k.want[svcName], k.want[svcName+"|sub"] = all, labelled
+}
+
+// ingress / transport server through the controller
+func ingObjects(c *Case) *configs.IngressEx {
+	return buildIngress(vh.NewRng(c.Seed), c.P, "cafe-ingress", "cafe.example.com", c.P["ann"], "")
+}
+
+func tsObjects(c *Case) *configs.TransportServerEx { return buildTS(vh.NewRng(c.Seed), c.P, 0, false) }
+
+func getCtlFor(c *Case) *ctl {
+	if k, ok := ctlCache[c.ID]; ok {
+		return k
+	}
+	if c.Kind == "vsctl" || c.Kind == "controller.Endpoints" {
+		return getCtl(c)
+	}
+	k := &ctl{v: k8s.NewVerifC09(c.Plus), want: map[string][]string{}}
+	switch c.Kind {
+	case "ingctl":
+		ex := ingObjects(c)
+		for i, p := range ex.Ingress.Spec.Rules[0].HTTP.Paths {
+			k.populate(ex.Ingress.Namespace, p.Backend.Service.Name, p.Backend.Service.Port.Number, i, nil, 2*(c.P["eps"]+1)+1)
+		}
+	case "tsctl":
+		ex := tsObjects(c)
+		for i, u := range ex.TransportServer.Spec.Upstreams {
+			k.populate(ex.TransportServer.Namespace, u.Service, int32(u.Port), i, nil, 2*(c.P["eps"]+1)+1)
+		}
+	}
+	ctlCache[c.ID] = k
+	return k
+}
+
+func buildIngCtl(c *Case) *configs.IngressEx {
+	k := getCtlFor(c)
+	ex := ingObjects(c)
+	out := k.v.CreateIngressEx(ex.Ingress, ex.ValidHosts)
+	return out
+}
+
+func buildTSCtl(c *Case) *configs.TransportServerEx {
+	k := getCtlFor(c)
+	ex := tsObjects(c)
+	return k.v.CreateTransportServerEx(ex.TransportServer, ex.ListenerPort)
 }
 
 // buildVSCtl: one sync of the controller for the VirtualServer of the case
